@@ -91,7 +91,15 @@ class Stepper(object):
             out.append({"tag": tag, "msg": "op %r: %s" % (op, msg)})
 
         before = core.state_snapshot(h.state)
-        if k == "event":
+        if k == "burst":
+            for i in range(op[1]):
+                if op[2] == "pause":
+                    h.event("PRINT_PAUSED")
+                    h.event("PRINT_RESUMED")
+                else:
+                    h.event(OTHER_EVENTS[i % len(OTHER_EVENTS)])
+            self.sync_twin()
+        elif k == "event":
             name = op[1]
             was_active = self.active
             h.event(name, copy.deepcopy(op[2]) if len(op) > 2 else None)
@@ -271,6 +279,12 @@ def machine(tier, col):  # pylint: disable=unused-argument
                 self.do(["setting", "extendedExcludeGcodes", rows])
             if send:
                 self.do(["event", "SETTINGS_UPDATED"])
+
+        @rule(n=st.sampled_from([12, 55, 120]), what=st.sampled_from(["pause", "pause", "other"]), go=st.integers(0, 9))
+        def burst(self, n, what, go):
+            """A long print (rare): dozens of pause / resume cycles or unrelated events in a row - none of them ends or starts it."""
+            if go == 0:
+                self.do(["burst", n, what])
 
         @rule(val=st.booleans())
         def toggle_other(self, val):
